@@ -1257,13 +1257,63 @@ fn random_case(rng: &mut Rng, env: &Env, idx: u64) -> Case {
 // Running and checking one case
 // ---------------------------------------------------------------------------
 
-fn script_of(spec: &Spec) -> String {
-    let mut s = String::new();
-    s.push_str(&format!("make c get command({})\n", lit(&spec.program)));
-    for call in &spec.calls {
-        s.push_str(&call.render());
-        s.push('\n');
+/// A string literal, or the same text computed at run time from two literals (so that it is a
+/// temporary of the frame it is evaluated in rather than a slice of the source text).
+fn text_expr(s: &str, computed: bool) -> String {
+    if computed && !s.contains('{') && s.chars().count() >= 2 {
+        let cut = s.char_indices().nth(s.chars().count() / 2).map_or(0, |(i, _)| i);
+        return format!("({} add {})", lit(&s[..cut]), lit(&s[cut..]));
     }
+    lit(s)
+}
+
+fn render_call(call: &Call, computed: bool) -> String {
+    let val = |v: &Val| match v {
+        Val::Str(s) => text_expr(s, computed),
+        other => other.expr(),
+    };
+    match call {
+        Call::Arg(v) => format!("c.arg({})", val(v)),
+        Call::Cwd(p) => format!("c.cwd({})", text_expr(p, computed)),
+        Call::Env(k, v) => format!("c.env({}, {})", text_expr(k, computed), val(v)),
+        Call::StdinText(v) => format!("c.stdin_text({})", val(v)),
+        other => other.render(),
+    }
+}
+
+/// The same configuration written in different places of a script: straight-line top level
+/// (style 0), or with the builder calls inside loop bodies, function bodies and nested blocks
+/// whose frames end before `run()`, with values computed at run time, and with unrelated string
+/// work between configuration and `run()` (styles 1-3). What the child must see does not change.
+fn script_of(spec: &Spec, style_rng: &mut Rng) -> String {
+    let style = style_rng.weighted(&[5, 2, 2, 3]);
+    let mut s = String::new();
+    s.push_str(&format!("make c get command({})\n", text_expr(&spec.program, style == 3 && style_rng.chance(1, 2))));
+    if style == 0 {
+        for call in &spec.calls {
+            s.push_str(&call.render());
+            s.push('\n');
+        }
+        s.push_str("make r get c.run()\nshout(r.success())\nshout(r.exit_code())\n");
+        return s;
+    }
+    for (k, call) in spec.calls.iter().enumerate() {
+        let place = match style {
+            1 => 1,
+            2 => 2,
+            _ => style_rng.weighted(&[2, 3, 3, 1]),
+        };
+        let line = render_call(call, style == 3 && style_rng.chance(2, 3));
+        match place {
+            0 => s.push_str(&format!("{line}\n")),
+            1 => s.push_str(&format!("make zz_i{k} get 0\njasi (zz_i{k} small pass 1) start\n    zz_i{k} get zz_i{k} add 1\n    {line}\nend\n")),
+            2 => s.push_str(&format!("do zz_cfg{k}() start\n    {line}\nend\nzz_cfg{k}()\n")),
+            _ => s.push_str(&format!("if to say (true) start\n    {line}\nend\n")),
+        }
+    }
+    // unrelated work that reuses whatever the frames above gave back
+    s.push_str("make zz_junk get []\nmake zz_j get 0\njasi (zz_j small pass 24) start\n    zz_junk.push(\"churn-\" add zz_j add \"-ZZZZZZZZZZZZZZZZZZZZZZZZZZZZZZZZZZZZZZZZ\")\n    zz_j get zz_j add 1\nend\n");
+    s.push_str("do zz_noise(p) start\n    return (p add \"/ZZZZZZZZZZZZZZZZZZZZZZZZZZZZZZZZ\").len()\nend\nmake zz_n get zz_noise(\"ZZZZZZZZZZZZZZZZ\") add zz_noise(\"ZZZZ=ZZZZ\")\n");
     s.push_str("make r get c.run()\nshout(r.success())\nshout(r.exit_code())\n");
     s
 }
@@ -1371,7 +1421,8 @@ fn run_case(ctx: &mut Ctx, env: &Env, stage: &str, idx: u64, pending: &mut Vec<P
         "invalid" => invalid_case(&mut rng, env, idx),
         _ => random_case(&mut rng, env, idx),
     };
-    let src = script_of(&case.spec);
+    let mut style_rng = Rng::new(util::case_seed(ctx.seed, &format!("procspec-style-{stage}"), idx));
+    let src = script_of(&case.spec, &mut style_rng);
     if env.dump {
         eprintln!("### {stage} {idx} probe={} allow={} caps={}\n{}", case.probe, case.allow, caps_json(&case.caps), show(&src));
     }
